@@ -517,7 +517,7 @@ package proxy
 //@ func (*staticUpstream).healthCheck$1
 //@   requires u != nil
 
-//@ unit setup_sweep props=C11 files=setup.go,upstream.go nilchecks=on nonnil_params=on dispenser_variants=on exclude=`staticUpstream\)\.(HealthCheckWorker|NewHost|Select|healthCheck|healthCheck\$1|resolveHost)$|headerReplacements\)\.Add$|proxy\.(NewStaticUpstreams|RegisterPolicy|parseUpstream|replacePort)$` filter=`.`
+//@ unit setup_sweep props=C11,C08 files=setup.go,upstream.go nilchecks=on nonnil_params=on dispenser_variants=on exclude=`staticUpstream\)\.(HealthCheckWorker|NewHost|Select|healthCheck|healthCheck\$1|resolveHost)$|headerReplacements\)\.Add$|proxy\.(NewStaticUpstreams|RegisterPolicy|parseUpstream|replacePort)$` filter=`.`
 //@ // Safety sweep of this directive's setup code: index, slice, division, nil-map store, nil dereference, explicit panic,
 //@ // and termination of the loops driven by the token cursor. No functional contract; callees in the dispenser through their contracts.
 //@ use casketfile/contracts_verif.go:dispenser_api
